@@ -9,7 +9,7 @@
 
    brute f boxes  =  the indices i (in increasing order) of the boxes with f (box i) = true — the
    exhaustive scan.                                                                              *)
-From PF Require Import Trees.Octree Trees.Bvh Trees.OctreeProofs Trees.BvhProofs Trees.ElemProofs.
+From PF Require Import Trees.Octree Trees.Bvh Trees.OctreeProofs Trees.BvhProofs Trees.ElemProofs Trees.TriProofs Trees.MeshProofs.
 From PF Require Check.C16 Trees.CheckProofs.
 From Coq Require Import Permutation QArith.
 Open Scope Z_scope.
@@ -168,13 +168,48 @@ Theorem seg_closest_no_nearer_than_box : forall a b p,
 Proof. exact seg_closest_far. Qed.
 Print Assumptions seg_closest_no_nearer_than_box.
 
-(* TRIANGLE elements: partial.  Proved: the edge branch is a segment (above) and the projection branch
-   for projections that fall on the integer grid (tri_closest_in_bbox below).  Not proved: the same for
-   the rational projection p - ((p-a).n/n.n) n in general (the statement scales to the integer one by
-   n.n, the port was not finished); the harness re-checks "box distance <= element distance" on Go's own
-   numbers for every triangle query instead.  Full statement wanted:
-     forall triangles tris q depth t, new_octree depth (map tri_box tris) = Some t -> [as for segments
-     with cpt i := exact scopedTri.ClosestPoint].  *)
+(* TRIANGLE elements (round 4: no longer partial).  Exact rational model of scopedTri.ClosestPoint
+   (Trees/Octree.v tri_closest): the plane projection p - n ((p-a).n / n.n), that point if the repaired
+   three-sign PointInSide accepts it, else the nearest of the three edges' ClosestPointOnLine(projection)
+   (first on ties).  For every list of triangles of non-zero area (tri_proper: n.n > 0; Go computes NaN for
+   the others), every depth and every query the tree returns a triangle whose exact closest point is
+   nearest, and that point: no hypothesis on the elements is left. *)
+Theorem closest_eq_brute_triangles : forall (tris : list tri3) q depth t,
+  Forall tri_proper tris ->
+  let boxes := map tri3_box tris in
+  let cpt := fun i => tri3_closest (tri_of tris i) q in
+  let kq := fun i => qdist2 (cpt i) q in
+  new_octree depth boxes = Some t ->
+  exists (K : Z) (ekey : nat -> Z),
+    0 < K /\ (forall i, (i < length tris)%nat -> (inject_Z (ekey i) == inject_Z K * kq i)%Q) /\
+    (exists r, closest qpt ekey cpt K q t = Some r) /\
+    forall i k p, closest qpt ekey cpt K q t = Some (i, k, p) ->
+      (i < length tris)%nat /\ p = cpt i /\ forall j, (j < length tris)%nat -> (kq i <= kq j)%Q.
+Proof. exact closest_eq_brute_triangles_thm. Qed.
+Print Assumptions closest_eq_brute_triangles.
+
+(* the element facts behind it: the reported point of a proper triangle lies in the triangle's bounding box
+   (every query, both branches), hence is no nearer than the box; the projection branch for ANY rational
+   point of the triangle's plane that the three-sign PointInSide accepts (this is the full-strength form of
+   tri_closest_in_bbox_partial below, which is its special case "projection on the integer grid") *)
+Theorem tri_closest_in_bbox : forall a b c p,
+  0 < dot (cross (vsub b a) (vsub c a)) (cross (vsub b a) (vsub c a)) ->
+  in_qbox (tri_closest a b c p) (tri_box a b c).
+Proof. exact tri_closest_in_box. Qed.
+Print Assumptions tri_closest_in_bbox.
+
+Theorem tri_closest_no_nearer_than_box : forall a b c p,
+  0 < dot (cross (vsub b a) (vsub c a)) (cross (vsub b a) (vsub c a)) ->
+  (zq (boxdist2 (tri_box a b c) p) <= qdist2 (tri_closest a b c p) p)%Q.
+Proof. exact tri_closest_far. Qed.
+Print Assumptions tri_closest_no_nearer_than_box.
+
+Theorem tri_point_in_side_in_bbox : forall a b c (P : qpt),
+  (0 < qdot (tri_normal_q a b c) (tri_normal_q a b c))%Q ->
+  (qdot (tri_normal_q a b c) (qvsub P (inj a)) == 0)%Q ->
+  tri_in_side_q a b c P = true -> in_qbox P (tri_box a b c).
+Proof. exact tri_in_side_q_in_box. Qed.
+Print Assumptions tri_point_in_side_in_bbox.
 
 (* instances.  Points: the point itself.  Segments: every coordinate of ClosestPointOnLine lies
    between the end points' coordinates, for every parameter.  Triangles: the projection accepted by the
@@ -269,6 +304,104 @@ Print Assumptions bvh_hit_min_offset_pinned_refuted.
 Theorem bvh_structure_ok : forall lbox t, bvh_wfb lbox t = true -> binv lbox t.
 Proof. exact bvh_wfb_binv. Qed.
 Print Assumptions bvh_structure_ok.
+
+(* BVHNode.Hit and HitList.Hit against the exhaustive scan itself (nearest_answer: no flag and an untouched
+   record iff no object is hit within the bound, else the least Distance among ALL objects hit within the
+   bound, attained by one of them) — not only against each other *)
+Theorem list_hit_is_nearest : forall tv dist,
+  (forall i t, tv i = Some t -> (dist i == t)%Q) ->
+  forall l hi, nearest_answer tv dist l hi (list_hit tv dist l hi false None).
+Proof. exact list_hit_nearest_thm. Qed.
+Print Assumptions list_hit_is_nearest.
+
+Theorem bvh_hit_is_nearest : forall lbox tv dist ry lo,
+  (forall i t, tv i = Some t -> (dist i == t)%Q) ->
+  (forall i t, tv i = Some t -> slab (lbox i) ry (lo, t) = true) ->
+  (forall i, wf_box (lbox i)) ->
+  forall t hi, binv lbox t -> nearest_answer tv dist (leaves t) hi (bhit tv dist ry lo t hi None).
+Proof. exact bvh_hit_nearest_thm. Qed.
+Print Assumptions bvh_hit_is_nearest.
+
+(* ... on every tree NewBVHTree can build over objs (any split axes, any tie order of the sort) *)
+Theorem bvh_built_hit_is_nearest : forall lbox srt tv dist ry lo,
+  (forall l, Permutation (srt l) l) ->
+  (forall i t, tv i = Some t -> (dist i == t)%Q) ->
+  (forall i t, tv i = Some t -> slab (lbox i) ry (lo, t) = true) ->
+  (forall i, wf_box (lbox i)) ->
+  forall fuel objs t hi, bvh_build lbox srt fuel objs = Some t ->
+    nearest_answer tv dist objs hi (bhit tv dist ry lo t hi None).
+Proof. exact bvh_built_hit_nearest_thm. Qed.
+Print Assumptions bvh_built_hit_is_nearest.
+
+(* MESH-LEVEL ENTRY POINTS.  Mesh.OctTree / OctTreeDepth / OctTreeWithAttributeAndDepth hand "primitive i of
+   the mesh, scoped to the attribute" to NewOctreeWithDepth as element i (mesh_boxes kind verts idx: point
+   cloud / line strip / triangles; verts = the attribute's values).  What primitive i is: *)
+Theorem mesh_tri_elements : forall verts idx,
+  length (mesh_tri_boxes verts idx) = Nat.div (length idx) 3 /\
+  forall i, (i < Nat.div (length idx) 3)%nat ->
+    nth i (mesh_tri_boxes verts idx) zero_pt_box =
+    tri_box (vat verts (nth (3 * i) idx 0%nat)) (vat verts (nth (3 * i + 1) idx 0%nat))
+            (vat verts (nth (3 * i + 2) idx 0%nat)).
+Proof. exact mesh_tri_boxes_spec. Qed.
+Print Assumptions mesh_tri_elements.
+
+Theorem mesh_strip_elements : forall verts idx,
+  length (mesh_strip_boxes verts idx) = Nat.pred (length idx) /\
+  forall i, (i < Nat.pred (length idx))%nat ->
+    nth i (mesh_strip_boxes verts idx) zero_pt_box =
+    seg_box (vat verts (nth i idx 0%nat)) (vat verts (nth (S i) idx 0%nat)).
+Proof. exact mesh_strip_boxes_spec. Qed.
+Print Assumptions mesh_strip_elements.
+
+Theorem mesh_point_elements : forall verts,
+  length (mesh_point_boxes verts) = length verts /\
+  forall i, (i < length verts)%nat -> nth i (mesh_point_boxes verts) zero_pt_box = point_box (vat verts i).
+Proof. exact mesh_point_boxes_spec. Qed.
+Print Assumptions mesh_point_elements.
+
+(* the ids every query reports on the tree of a mesh ARE mesh primitive indices: exactly the primitives
+   whose own box contains the point / is within the radius / is crossed by the ray — for every mesh
+   (also one with triangles that name a vertex twice, zero-length segments, coincident points), depth, query;
+   no well-formedness hypothesis is left (mesh boxes are well-formed) *)
+Theorem mesh_octree_ids_are_primitives : forall kind verts idx depth t,
+  let boxes := mesh_boxes kind verts idx in
+  new_octree depth boxes = Some t ->
+  (forall p i, In i (containing t p) <-> (i < length boxes)%nat /\ inb p (nth i boxes zero_pt_box) = true) /\
+  (forall p d i, In i (within t p d) <-> (i < length boxes)%nat /\ far (nth i boxes zero_pt_box) p d = false) /\
+  (forall ry r i, In i (ray_hits t ry r) <-> (i < length boxes)%nat /\ ray_crosses (nth i boxes zero_pt_box) ry r).
+Proof. exact mesh_octree_ids_thm. Qed.
+Print Assumptions mesh_octree_ids_are_primitives.
+
+(* ClosestPoint on the tree of a triangle mesh without zero-area triangles: end to end from vertices and
+   indices to "the returned id is a primitive whose exact closest point is nearest, with that point" *)
+Theorem mesh_tri_closest : forall verts idx q depth t,
+  let tris := mesh_tris verts idx in
+  Forall tri_proper tris ->
+  let cpt := fun i => tri3_closest (tri_of tris i) q in
+  let kq := fun i => qdist2 (cpt i) q in
+  new_octree depth (mesh_tri_boxes verts idx) = Some t ->
+  exists (K : Z) (ekey : nat -> Z),
+    0 < K /\ (forall i, (i < length tris)%nat -> (inject_Z (ekey i) == inject_Z K * kq i)%Q) /\
+    (exists r, closest qpt ekey cpt K q t = Some r) /\
+    forall i k p, closest qpt ekey cpt K q t = Some (i, k, p) ->
+      (i < length tris)%nat /\ p = cpt i /\ forall j, (j < length tris)%nat -> (kq i <= kq j)%Q.
+Proof. exact mesh_tri_closest_thm. Qed.
+Print Assumptions mesh_tri_closest.
+
+(* non-vacuity of the triangle / mesh theorems: a mesh of three triangles, the first two sharing an edge;
+   all proper; the query (14,-6,0) = Go (3.5,-1.5,0) of DESIGN §5 entry 28: projection rejected, the answer
+   is the point (8,0,0) of edge AB / BC of triangle 0 at squared distance 72 (Go: 4.5) *)
+Example c16_mesh_example :
+  let verts := [(0,0,0); (8,0,0); (0,8,0); (8,8,0); (-24,24,0); (-28,24,0); (-24,28,0)] in
+  let idx := [0; 1; 2; 1; 3; 2; 4; 5; 6]%nat in
+  Forall tri_proper (mesh_tris verts idx) /\
+  length (mesh_tri_boxes verts idx) = 3%nat /\
+  Qeq_bool (qdist2 (tri_closest (0,0,0) (8,0,0) (0,8,0) (14,-6,0)) (14,-6,0)) 72 = true /\
+  tri_in_side_q (0,0,0) (8,0,0) (0,8,0) (tri_proj (0,0,0) (8,0,0) (0,8,0) (14,-6,0)) = false /\
+  tri_in_side_q (0,0,0) (8,0,0) (0,8,0) (tri_proj (0,0,0) (8,0,0) (0,8,0) (2,3,9)) = true.
+Proof.
+  cbv zeta. split; [repeat constructor|]. vm_compute. repeat split; reflexivity.
+Qed.
 
 (* non-vacuity: five elements (three on the centre planes), depth 2: the tree has inner cells, the
    hypotheses hold and the queries return non-trivial answers *)
